@@ -135,6 +135,36 @@ Theorem tables_constants : consts_ok = true.
 Proof. exact consts_ok_true. Qed.
 Print Assumptions tables_constants.
 
+(* independent specifications: the frozen hand-reviewed field list (AvmFieldSpec.v) and the
+   repository's own langspec_v<K>.json agree with the run-time tables *)
+Theorem tables_fields_match_frozen_spec : field_spec_agrees = true.
+Proof. exact field_spec_agrees_true. Qed.
+Print Assumptions tables_fields_match_frozen_spec.
+
+Theorem field_modes_follow_spec : forall g fs,
+    In g field_groups -> In fs (fg_fields g) ->
+    exists gg nn app_only,
+      spec_lookup (fg_name g) (fs_name fs) = Some (gg, nn, fs_field fs, fs_version fs, app_only) /\
+      fs_modes fs = (if app_only then ModeApp else 3%N).
+Proof. exact AvmTableProofs.field_modes_follow_spec. Qed.
+Print Assumptions field_modes_follow_spec.
+
+Theorem tables_match_langspec_ops : langspec_ops_agree = true.
+Proof. exact langspec_ops_agree_true. Qed.
+Print Assumptions tables_match_langspec_ops.
+
+Theorem tables_match_langspec_fields : langspec_fields_agree = true.
+Proof. exact langspec_fields_agree_true. Qed.
+Print Assumptions tables_match_langspec_fields.
+
+(* every branch target the static check (and the shared decoders of the op functions) accepts lies
+   inside the program, also when the Go int addition wraps *)
+Theorem accepted_targets_in_program : forall lsv max_bytes v s prog pc nx ts thr,
+    run_check lsv max_bytes v s prog pc = Ok (nx, ts, thr) ->
+    Forall (fun o => forall t, o = Some t -> t <= List.length prog) ts.
+Proof. exact AvmAgreeProofs.accepted_targets_in_program. Qed.
+Print Assumptions accepted_targets_in_program.
+
 (* non-vacuity: the contract on op families is satisfiable, a branching program passes the static
    check and runs through two taken branches to the end of the program *)
 Example ref_ops_conform : forall lsv max_bytes v s prog st stack' n calls' pool' w',
